@@ -72,6 +72,9 @@ def generate(prop, rng, seed, index, tier):
                 g.types[n['id']] = ('fix', (gen.INT, g.types[n['up'][0]]))
             if n['op'] == 'starmap':
                 n.pop('args', None)          # dask starmap has no positional extras
+                if n.get('kwargs') and rng.random() < 0.4:
+                    # a keyword argument of the user's function that happens to be named like an option of Client.submit
+                    n['kwargs'] = {rng.choice(['priority', 'retries']): list(n['kwargs'].values())[0]}
                 t = g.types[n['up'][0]]
                 extra = (gen.INT,) if n.get('kwargs') else ()
                 g.types[n['id']] = ('fix', (gen.INT,) + tuple(t[1]) + extra)
